@@ -54,6 +54,11 @@ type Op struct {
 	Self  bool    `json:"self,omitempty"` // IntKeyMap.PutAll(itself)
 	Bytes []byte  `json:"bytes,omitempty"`
 	Str   bool    `json:"str,omitempty"` // the key is the string S (StringSet), even when S == ""
+	// Src: a LIVE instance used as the PutAll argument (multi-instance histories: both maps go on
+	// being used and checked afterwards); KS/VS then list its content for the model. SrcTag names
+	// it in traces. A replay rebuilds the source from KS/VS.
+	Src    interface{} `json:"-"`
+	SrcTag string      `json:"src,omitempty"`
 }
 
 func (o Op) String() string {
@@ -72,6 +77,9 @@ func (o Op) String() string {
 		}
 		if o.Self {
 			return "PutAll(self)"
+		}
+		if o.SrcTag != "" {
+			return fmt.Sprintf("PutAll(live instance %s holding %v,%v)", o.SrcTag, o.KS, o.VS)
 		}
 		return fmt.Sprintf("PutAll(%v,%v)", o.KS, o.VS)
 	case "ToObject":
@@ -661,6 +669,8 @@ func applyIntKey(in *Inst, m *hmap.IntKeyMap, op Op) Result {
 			m.PutAll(nil)
 		case op.Self:
 			m.PutAll(m)
+		case op.Src != nil:
+			m.PutAll(op.Src.(*hmap.IntKeyMap))
 		default:
 			o := hmap.NewIntKeyMapDefault()
 			for i, k := range op.KS {
@@ -681,7 +691,27 @@ func applyIntSet(m *hmap.IntSet, op Op) Result {
 		if op.Nil {
 			m.PutAll(nil)
 		} else {
-			m.PutAll(append([]int32{}, op.KS...))
+			// the argument is lent, not given: a window of a larger array between guard cells;
+			// afterwards the caller reuses its array (every cell overwritten). The set must
+			// neither have written to it nor go on looking at it.
+			const guard = int32(0x5a5a5a5a)
+			n := len(op.KS)
+			arr := make([]int32, n+8)
+			for i := range arr {
+				arr[i] = guard
+			}
+			win := arr[4 : 4+n : 4+n]
+			copy(win, op.KS)
+			m.PutAll(win)
+			for i, v := range arr {
+				in := i >= 4 && i < 4+n
+				if (in && v != op.KS[i-4]) || (!in && v != guard) {
+					return Result{Kind: ROther, S: fmt.Sprintf("PutAll wrote to the caller's slice (cell %d of the lent array)", i-4)}
+				}
+			}
+			for i := range arr {
+				arr[i] = guard ^ int32(i)
+			}
 		}
 		return Result{Kind: RVoid}
 	case "Contains":
